@@ -484,6 +484,17 @@ def oracle_mesh(kind, m, manifold=True):
             bad.append(('boundary_edges', f'{be} but the edges of single-neighbour facets are {sorted(want_be)}'))
         if sorted(be + ie) != list(range(ne)) or set(be) & set(ie):
             bad.append(('interior_edges', 'boundary and interior edges do not partition the edges'))
+    # hypothesis of C11_f2e_numbers_mesh_edges_hex: every cell lists a facet's vertices in the cyclic order of the stored column
+    if kind == 'hex':
+        t2f_ = np.asarray(m.t2f)
+        for e in range(nt):
+            for s, ix in enumerate(fslots):
+                q = fac[:, t2f_[s, e]].tolist()
+                imgs = [q[k:] + q[:k] for k in range(4)] + [q[::-1][k:] + q[::-1][:k] for k in range(4)]
+                if t[ix, e].tolist() not in imgs:
+                    bad.append(('facet-cyclic-order', f'cell {e} lists facet {int(t2f_[s, e])} as {t[ix, e].tolist()}, the mesh stores {q}: '
+                                                      'not the same cyclic order (non-conforming hexahedra)'))
+                    return bad
     # f2e (only where the library defines a boundary element)
     if m.bndelem is not None:
         f2e = np.asarray(m.f2e)
